@@ -75,8 +75,12 @@ type Replica struct {
 	// abciMu serialises the ABCI calls like CometBFT's local client does (one mutex for
 	// all four connections). EstimateGas and state queries do NOT take it.
 	abciMu sync.Mutex
+	// srvMu protects the Srv pointer: queries/EstimateGas hold it shared, Restart/Close exclusively.
+	srvMu sync.RWMutex
 
 	Height   int64 // last committed height (0 = only InitChain done)
+	// RegOrder lists the app names in the order they were registered at the last boot.
+	RegOrder []string
 	Restarts int
 }
 
@@ -249,7 +253,9 @@ func (r *Replica) boot() (err error) {
 			apps[i], apps[j] = apps[j], apps[i]
 		}
 	}
+	r.RegOrder = nil
 	for _, a := range apps {
+		r.RegOrder = append(r.RegOrder, a.Name())
 		if err := srv.Register(a); err != nil {
 			return fmt.Errorf("register %s: %w", a.Name(), err)
 		}
@@ -294,6 +300,8 @@ func (r *Replica) initChain() (err error) {
 
 // Close stops the server and removes a temp data dir owned by the replica.
 func (r *Replica) Close() {
+	r.srvMu.Lock()
+	defer r.srvMu.Unlock()
 	r.stop()
 	if r.ownsDir && r.Cfg.DataDir != "" {
 		_ = os.RemoveAll(r.Cfg.DataDir)
@@ -323,6 +331,8 @@ func (r *Replica) Restart(newCfg *ReplicaConfig) error {
 	}
 	r.abciMu.Lock()
 	defer r.abciMu.Unlock()
+	r.srvMu.Lock()
+	defer r.srvMu.Unlock()
 	r.stop()
 	if newCfg != nil {
 		dir := r.Cfg.DataDir
@@ -540,9 +550,15 @@ func (r *Replica) CheckTx(raw []byte, recheck bool) (resp types.ResponseCheckTx,
 // with ABCI calls: in a node it is called from gRPC goroutines).
 func (r *Replica) EstimateGas(caller signature.PublicKey, tx *transaction.Transaction) (gas transaction.Gas, err error) {
 	defer r.guard("EstimateGas", &err)
+	r.srvMu.RLock()
+	defer r.srvMu.RUnlock()
 	cp := *tx
 	return r.Srv.EstimateGas(caller, &cp)
 }
 
 // LastHeight is the last committed block height as reported by the server.
-func (r *Replica) LastHeight() int64 { return r.Srv.State().LastHeight() }
+func (r *Replica) LastHeight() int64 {
+	r.srvMu.RLock()
+	defer r.srvMu.RUnlock()
+	return r.Srv.State().LastHeight()
+}
